@@ -8,10 +8,23 @@ RTOL = 2e-5
 ATOL = 2e-6
 
 
+def _canon(v):
+    """Leaf as a numpy array in JAX's canonical dtype: a Python int / numpy int64 leaf produced by plain-Python
+    execution is the same VALUE as the int32 array produced under jit (weak typing), not a different result."""
+    import jax.numpy as jnp
+
+    if isinstance(v, np.ndarray) and v.dtype != np.int64 and v.dtype != np.float64:
+        return v
+    try:
+        return np.asarray(jnp.asarray(v))
+    except Exception:  # noqa: BLE001
+        return np.asarray(v)
+
+
 def leaves_with_paths(tree):
     import jax
 
-    return [(jax.tree_util.keystr(p), np.asarray(v)) for p, v in jax.tree_util.tree_flatten_with_path(tree)[0]]
+    return [(jax.tree_util.keystr(p), _canon(v)) for p, v in jax.tree_util.tree_flatten_with_path(tree)[0]]
 
 
 def same(a, b):
@@ -49,7 +62,7 @@ def slice_tree(tree, i):
 def to_np(tree):
     import jax
 
-    return jax.tree_util.tree_map(lambda x: np.asarray(x), tree)
+    return jax.tree_util.tree_map(_canon, tree)
 
 
 def strip_key(state):
